@@ -646,6 +646,12 @@ def rule_total(ctx):
         else:
             ctx.ok("HDR.TOTAL", site, cf, node, "no unprotected partial operation on its inputs", nontrivial=True)
     if "reader.SectionParser.metadata" not in clos or "las_items.HeaderItem.__init__" not in clos:
+        spi = p.functions.get("reader.SectionParser.__init__")
+        dyn = spi is not None and any(isinstance(c_, ast.Call) and isinstance(c_.func, ast.Name) and c_.func.id == "getattr" and len(c_.args) >= 2
+                                      and not isinstance(c_.args[1], ast.Constant) for c_ in ast.walk(spi.node))
+        if dyn:
+            raise ShapeNotRecognised("SectionParser picks its item builder with getattr(self, <computed name>): the functions reachable from "
+                                     "the header loop cannot be enumerated, so the closure part of HDR.TOTAL is not decided")
         raise AnalysisError("HDR.TOTAL: closure of the header loop lost SectionParser.metadata/HeaderItem.__init__ "
                             "(resolver regression): %s" % sorted(clos))
     ctx.floor("HDR.TOTAL", 8)
